@@ -186,10 +186,11 @@ type Cluster struct {
 	FailDeploy func(node string) error
 	checks     func(h *ophar.Handler, key []byte, pl ophar.Payload, sh ophar.KeyShadow) (string, string)
 	jobGen     int
-	Latency    func(seq int)                   // optional handler latency
-	KeyLatency func(runner string, call int)   // optional latency of the key-by call (KeyEventBatch)
-	HoldRetain func(node string, ids []uint64) // called when a retention update reaches an operator, before it is applied (may block)
-	OnOpAck    func(a OpAck, w *Worker)        // synchronous, on the operator's event loop, before the ack is forwarded
+	Latency    func(seq int)                       // optional handler latency
+	KeyLatency func(runner string, call int)       // optional latency of the key-by call (KeyEventBatch)
+	FailAssign func(node string, splits int) error // optional: makes an AssignSplits call to a runner fail (transient RPC error)
+	HoldRetain func(node string, ids []uint64)     // called when a retention update reaches an operator, before it is applied (may block)
+	OnOpAck    func(a OpAck, w *Worker)            // synchronous, on the operator's event loop, before the ack is forwarded
 	// OnOperatorDeploy is called before an operator's HandleDeploy is invoked (epoch switch: shadow = cut).
 	OnOperatorDeploy func(rec DeployRec)
 }
@@ -880,6 +881,14 @@ func (a *srAd) Deploy(ctx context.Context, r *workerpb.DeploySourceRunnerRequest
 }
 func (a *srAd) AssignSplits(ctx context.Context, s []*workerpb.SourceSplit) (err error) {
 	defer a.c.rpcRecover("AssignSplits("+a.node.Id+")", &err)
+	if f := a.c.FailAssign; f != nil {
+		if err := f(a.node.Id, len(s)); err != nil {
+			a.c.mu.Lock()
+			a.c.edgeErrs = append(a.c.edgeErrs, fmt.Sprintf("AssignSplits(%s, %d splits): %v", a.node.Id, len(s), err))
+			a.c.mu.Unlock()
+			return err
+		}
+	}
 	w := a.target()
 	if w == nil {
 		return errors.New("verif: source runner unreachable")
